@@ -1076,6 +1076,7 @@ class Exec:
             return
         env["__module__"] = fv.module
         env["__func__"] = fv.qualname
+        env["__cls__"] = fv.cls
         if fv.closure is not None:
             env["__closure__"] = fv.closure
         depth = len(st.frames)
